@@ -1,6 +1,10 @@
 import PhyloModel.Props.C02
 import PhyloModel.Props.C14
 import PhyloModel.Props.C17
+import PhyloModel.Props.C08
+import PhyloModel.Props.C15
+import PhyloModel.Props.C18
+import PhyloModel.Props.C03
 import PhyloModel.Arena.DepthBound
 import PhyloModel.Arena.PruneBTop
 import PhyloModel.Arena.ResetTop
@@ -105,5 +109,43 @@ theorem traversals_never_panic (a : Arena) (x : Nat) :
     QR.isPanic (subtree a x) = false ∧ QR.isPanic (postorder a x) = false ∧
     QR.isPanic (levelorderQ a x) = false := by
   simp [subtree, postorder, levelorderQ]
+
+/-- the strict Phylip parser never panics either, for every text and both layouts — the positional fill never indexes
+    outside the triangular vector (from C14) -/
+theorem phylip_strict_never_panics {L : Type} [Inhabited L] (cd : PHY.Codec L) (text : PHY.Text) (square : Bool) :
+    PHY.fromPhylipStrict cd text square ≠ .panic := C14.strict_total cd text square
+
+/-- the fast distance matrix on ANY well-formed arena (forest invariant: several roots, removed slots, unnamed or
+    repeated leaf names, missing lengths, an emptied arena) answers `UnnamedLeaves`, `RootNotFound` or a matrix: the
+    `unwrap` of the cache lookups, the missing-cache error and the index computation are unreachable (from C08) -/
+theorem distance_matrix_total (a : Arena) (unit : Int) (hinv : Inv a) :
+    (DMF.dmFast a unit = .err "UnnamedLeaves" ∧ ∃ l ∈ leaves a, (nd a l).name = none) ∨
+    (DMF.dmFast a unit = .err "RootNotFound" ∧ getRoot a = none ∧ ∀ i, ¬ live a i) ∨
+    (∃ names cells, DMF.dmFast a unit = .ok (names, cells)) :=
+  C08.dm_fast_total a unit hinv
+
+/-- one iteration of the UPGMA loop on a well-formed state with two or more live clusters cannot fail: the minimum
+    search finds a finite cell whose two indices are live (from C15) -/
+theorem upgma_step_total {n : Nat} {st : UPG.St} {mem : Nat → List Nat} (h : UPG.WFSt n st mem)
+    (h2 : 2 ≤ (UPG.actOf n st).length) : ∃ st', UPG.step st = .ok st' :=
+  C15.step_total h h2
+
+/-- ... and `upgma` on every non-negative matrix on two or more taxa returns a tree (from C15) -/
+theorem upgma_total (taxa : List String) (v : Array Rat) (h2 : 2 ≤ taxa.length) (hv : v.size = Tri.T taxa.length)
+    (hpos : ∀ k, k < v.size → 0 ≤ v.getD k 0) : ∃ r, UPG.upgma taxa v = .ok r :=
+  (UPG.upgma_ok_nonneg taxa v h2 hv hpos).1
+
+/-- EVERY editing operation of the model with ARBITRARY arguments (removed or out-of-range ids, equal arguments,
+    non-siblings, ill-formed oracles) on a well-formed arena terminates — the recursion fuel is never exhausted — and
+    leaves a well-formed arena, whether it succeeds or returns an error (from C03) -/
+theorem edits_total (a : Arena) (op : Op) (g : Good a) :
+    (applyOp a op).2 ≠ .diverge ∧ Good (applyOp a op).1 :=
+  ⟨(applyOp_good op g).2, (applyOp_good op g).1⟩
+
+/-- the command-line `collapse` on a well-formed arena with a root always ends with a tree (from C18) -/
+theorem cli_collapse_total {a : Arena} (g : Good a) {r : Nat} (hr : getRoot a = some r) (thr : Int) (ex : Bool) :
+    ∃ a', cliCollapse a thr ex = .ok a' := by
+  obtain ⟨a', h, _⟩ := C18.collapse_whole_loop g hr thr ex
+  exact ⟨a', h⟩
 
 end C20
